@@ -49,6 +49,38 @@ def op_const(o):
 _succ_cache = {}
 
 
+def _known_switch_target(blk, t):
+    """A switch on the discriminant of a value built in the same block with a
+    known variant (the `if let Some(__ret) = None::<T>` prologue emitted by
+    #[async_trait]) has one feasible target."""
+    l = op_local(t["d"])
+    if l is None:
+        return None
+    ds = None
+    for s in blk["s"]:
+        if s.get("d") == str(l) and s.get("k") == "discr":
+            ds = s
+    if ds is None or "map" not in ds or "." in ds["p"]:
+        return None
+    src = ds["p"]
+    variant = None
+    for s in blk["s"]:
+        if s.get("d") == src and s.get("k") == "agg" and s.get("ak") == "adt":
+            variant = s.get("variant")
+    if variant is None:
+        return None
+    val = None
+    for v, name in ds["map"].items():
+        if name == variant:
+            val = int(v)
+    if val is None:
+        return None
+    for v, bb in t["vals"]:
+        if v == val:
+            return bb
+    return t["otherwise"]
+
+
 def succs(body):
     key = id(body)
     c = _succ_cache.get(key)
@@ -61,11 +93,15 @@ def succs(body):
         if t:
             k = t["k"]
             if k == "switch":
-                for _v, bb in t["vals"]:
-                    if bb not in s:
-                        s.append(bb)
-                if t["otherwise"] not in s:
-                    s.append(t["otherwise"])
+                known = _known_switch_target(b, t)
+                if known is not None:
+                    s.append(known)
+                else:
+                    for _v, bb in t["vals"]:
+                        if bb not in s:
+                            s.append(bb)
+                    if t["otherwise"] not in s:
+                        s.append(t["otherwise"])
             elif k in ("goto", "drop", "assert", "yield", "false_edge"):
                 s.append(t["t"])
             elif k == "call":
